@@ -199,7 +199,7 @@ func confirmPair(p pathSpec, dev twin.Deviation) (twin.PathResult, twin.PathResu
 
 func run(r *engine.Run) {
 	quick := r.Quick()
-	deadline := r.Deadline(8*gotime.Minute, 60*gotime.Minute)
+	deadline := r.Deadline(20*gotime.Minute, 60*gotime.Minute)
 	r.Bound = "(plus: a replica that Simulates every alphabet tx and six authority parameter updates on discarded branches before each block) bases {plain, busy}; busy: all sequences of 2 blocks with 0-1 tx from the 90-tx cross-module alphabet (valid + adversarial variants of every message type); plain: 1 block; every map iteration executed in repository code on the block goroutine deviated to every start position (1 deviation); wall clock skewed +-1h; every numeric/decimal/coin module parameter at {smallest, 1, largest of its type, percentage corners} one at a time if accepted by MsgUpdateParams, followed by a 6-block workload"
 	r.Assumptions = []string{
 		"map iteration order: replica A forces start (bucket 0, offset 0) for every iteration on the block goroutine; replica B deviates one iteration whose range statement is in repository code; iterations in upstream code (SDK, CometBFT, IAVL) are executed canonically in both replicas (thorough deviates a bounded number of them too)",
